@@ -187,7 +187,8 @@ def gen_geo_case(R):
         dl = R.choice([0.0, 1.0, -1.0]) if m < 0.15 else R.uniform(-1, 1)
         dm = R.choice([0.0, 1.0, -1.0]) if m < 0.15 else R.uniform(-1, 1)
         scale = R.choice([0.012, 0.005, 0.0001, 0.001])          # degrees: up to ~1.3 km per axis
-        pts.append((ref[0] + dl * scale, ref[1] + dm * scale, ref[2] + R.choice([0.0, R.uniform(-50, 50)])))
+        alt = R.choice([ref[2], ref[2] + R.uniform(-50, 50), 0.0, 100.0])          # incl. round flight levels and exactly 0
+        pts.append((ref[0] + dl * scale, ref[1] + dm * scale, alt))
     return {"ref": ref, "pts": pts}
 
 
